@@ -58,16 +58,61 @@ OUTSIDE = ('the distance budget of the numerical passes; level 4 (PAM needs synt
 GATES = ['cx', 'cz', 'u3', 'h', 'ccx', 'barrier']
 
 
+# Contract between ForEachBlockPass and the (stubbed) leaf passes: a leaf may use every edge of the sub-model it is
+# given, so the sub-model must be faithful to the physical graph under the placement in force. Each stubbed leaf call
+# inside a block records (placement, physical edges) of the enclosing ForEachBlockPass run and its own sub-model.
+CONTRACT: list = []
+_FOREACH_CTX: list = []
+
+
+def submodel_violations() -> list:
+    """Sub-model edges that are not edges between the block's physical qudits."""
+    bad = []
+    for (placement, phys, subnumbering, subedges, leaf) in CONTRACT:
+        inv = {v: k for k, v in subnumbering.items()}
+        for (a, b) in subedges:
+            if a not in inv or b not in inv:
+                bad.append((leaf, 'sub-model edge on a qudit the block does not have', (a, b)))
+                continue
+            qa, qb = inv[a], inv[b]
+            if qa >= len(placement) or qb >= len(placement):
+                bad.append((leaf, 'block qudit outside the placement', (qa, qb)))
+                continue
+            pa, pb = placement[qa], placement[qb]
+            if (min(pa, pb), max(pa, pb)) not in phys:
+                bad.append((leaf, 'sub-model offers (%d,%d) = logical (%d,%d) = physical (%d,%d), not coupled' % (
+                    a, b, qa, qb, pa, pb), (a, b)))
+    return bad
+
+
 def _install_stubs() -> None:
     import bqskit.passes as P
+    from bqskit.passes.control.foreach import ForEachBlockPass
 
     async def run(self: Any, circuit: Any, data: Any) -> None:
+        if 'subnumbering' in data and _FOREACH_CTX:
+            placement, phys = _FOREACH_CTX[-1]
+            sub = {int(k): int(v) for k, v in data['subnumbering'].items()}
+            CONTRACT.append((placement, phys, sub, sorted((min(a, b), max(a, b)) for a, b in data.model.coupling_graph),
+                             type(self).__name__))
         return None
     for name in STUBBED:
         cls = getattr(P, name, None)
         if cls is not None and not getattr(cls, '_vf_stubbed', False):
             cls.run = run
             cls._vf_stubbed = True
+    if not getattr(ForEachBlockPass, '_vf_wrapped', False):
+        orig = ForEachBlockPass.run
+
+        async def fe_run(self: Any, circuit: Any, data: Any) -> None:
+            _FOREACH_CTX.append((list(data.placement),
+                                 {(min(a, b), max(a, b)) for a, b in data.model.coupling_graph}))
+            try:
+                return await orig(self, circuit, data)
+            finally:
+                _FOREACH_CTX.pop()
+        ForEachBlockPass.run = fe_run
+        ForEachBlockPass._vf_wrapped = True
 
 
 def build_circuit(n: int, ops: list, measure: list) -> Any:
@@ -182,6 +227,8 @@ def run_compile(n: int, ops: list, measure: list, m: int, edges: list, level: in
     from bqskit.runtime.task import RuntimeTask
     from vf.rtsim import Schedule, flat_world
     _install_stubs()
+    del CONTRACT[:]
+    del _FOREACH_CTX[:]
     RuntimeTask.task_counter = 0
     inp = build_circuit(n, ops, measure)
     model = MachineModel(m, CouplingGraph(edges, m)) if gate_set is None else \
